@@ -4,6 +4,7 @@ import Rare.Proofs.C16Dissect
 import Rare.Proofs.C16Special
 import Rare.Proofs.C16Src
 import Rare.Proofs.C16Key
+import Rare.Proofs.C16SrcEsc
 import Rare.Gen.C16
 /-!
 Property C16: the JSON views `{.}`, `{#}`, `{.#}` of a match are valid, faithful and deterministic.
@@ -1157,6 +1158,40 @@ theorem expression_prints_view (raw skipNewline : Bool) (data kvs : List Bytes) 
     | true => rfl
     | false => simp only [Bool.false_eq_true, if_false, smartFormat_of_printable _ hp]
   · rw [(expression_keys key data σ).1, h]; rfl
+
+/-- **The hand model of `escape` is the source's function.**  `Rare.Gen.C16.escape` is regenerated on every run
+from the body of `escape` in pkg/minijson/minijson.go, statement by statement: the locals (`hasMapped`, the
+`strings.Builder`) as a record, `for i := 0; i < len(s); i++` as a fold over the indices, `c := s[i]`, the test
+`int(c) < len(escapeLookup) && escapeLookup[c] != ""` against the GENERATED table, the lazy copy of `s[:i]` on the
+first mapped byte, `WriteString(escapeLookup[c])`, `WriteByte(c)`, and the final `if hasMapped { return sb.String() };
+return s`.  For EVERY byte string it computes what the list-recursive model (`escapeLoop`) computes – so
+`escape_roundtrip`, `escape_bytewise`, `view_text_no_control_bytes`, … are theorems about the code as it is in /repo,
+and a changed condition, branch, statement order or table entry there breaks this theorem. -/
+theorem escape_matches_source (s : Bytes) : escape s = Gen.C16.escape s := by
+  rw [escape_eq_of_bodySpec s _ (escapeBody_spec escape_table_is_source s)]
+  rfl
+
+/-- **The array convention and the printing of `rare expression`, from the source**: the separator constant
+(`expressions.ArraySeparator`), the skeletons of `smartFormatResult` and `MakeArray`, and the "Emulate special keys"
+block of `expressionFunction` – `expCtx.Keys` starts as the map of the `-k` pairs and the seven emulated keys are
+assigned AFTERWARDS, in this order, with these right-hand sides (`Model/C16Cmd.lean: expressionKeys` was written
+against them). -/
+theorem array_and_printing_are_source :
+    Gen.C16.arraySeparator = arraySeparator.toNat ∧
+    Gen.C16.smartFormatOutline =
+      ["if strings.ContainsRune(s,expressions.ArraySeparator){", "varsbstrings.Builder", "sb.WriteRune('[')", "range idx,val:=strings.Split(s,expressions.ArraySeparatorString){", "if idx>0{", "sb.WriteString(\",\")", "}", "sb.WriteString(val)", "}", "sb.WriteRune(']')", "returnsb.String()", "}", "returns"] ∧
+    Gen.C16.makeArrayOutline =
+      ["varsbstrings.Builder", "for i:=0;i<len(args);i++{", "if i>0{", "sb.WriteRune(ArraySeparator)", "}", "sb.WriteString(args[i])", "}", "returnsb.String()"] ∧
+    Gen.C16.expressionKeysInit = "parseKeyValuesIntoMap(keyPairs...)" ∧
+    Gen.C16.emulatedKeys =
+      [([0x73, 0x72, 0x63], "\"<args>\""),
+      ([0x6c, 0x69, 0x6e, 0x65], "\"0\""),
+      ([0x2e], "buildSpecialKeyJson(nil,keys)"),
+      ([0x23], "buildSpecialKeyJson(data,nil)"),
+      ([0x2e, 0x23], "buildSpecialKeyJson(data,keys)"),
+      ([0x23, 0x2e], "expCtx.Keys[\".#\"]"),
+      ([0x40], "expressions.MakeArray(data...)")] := by
+  decide
 
 /-! non-vacuity of the round-4b theorems -/
 example : canonVal (lit "tRuE") = litTrue ∧ canonVal (lit "FALSE") = litFalse ∧ canonVal (lit "truee") = lit "truee" ∧
